@@ -478,24 +478,46 @@ class Engine:
         level), and any name stored anywhere in the function (parameters, locals, loop / with / except / comprehension targets)"""
         kn = getattr(self, "_known", None)
         if kn is None:
-            import builtins
-            kn = set(dir(builtins))
+            kn = set()
             for tree in (self.mod.tree, self.fn):
-                for n in ast.walk(tree):
+                cached = getattr(tree, "_c12_names", None)
+                if cached is None:
+                    cached = tree._c12_names = self._bound_in(tree)
+                kn |= cached
+            self._known = kn
+        return kn
+
+    @staticmethod
+    def _bound_in(tree):
+            import builtins
+            kn = set(dir(builtins)) | {"__name__", "__file__", "__doc__", "__builtins__", "__spec__", "__package__", "__class__", "__debug__"}
+            def walk(t, top):
+                # module level: do not look into function / class bodies (their locals are not globals)
+                stack = [t]
+                while stack:
+                    n = stack.pop()
+                    yield n
+                    for c in ast.iter_child_nodes(n):
+                        if top and n is not t and isinstance(n, (ast.FunctionDef, ast.AsyncFunctionDef, ast.ClassDef, ast.Lambda)):
+                            continue
+                        stack.append(c)
+            if True:
+                for n in walk(tree, isinstance(tree, ast.Module)):
                     if isinstance(n, ast.Name) and isinstance(n.ctx, (ast.Store, ast.Del)):
                         kn.add(n.id)
                     elif isinstance(n, (ast.FunctionDef, ast.AsyncFunctionDef, ast.ClassDef)):
                         kn.add(n.name)
                     elif isinstance(n, ast.alias):
                         kn.add((n.asname or n.name).split(".")[0])
+                        if n.name == "*":
+                            kn.add("*")
                     elif isinstance(n, ast.arg):
                         kn.add(n.arg)
                     elif isinstance(n, ast.ExceptHandler) and n.name:
                         kn.add(n.name)
                     elif isinstance(n, (ast.Global, ast.Nonlocal)):
                         kn.update(n.names)
-            self._known = kn
-        return kn
+            return kn
 
     def module_const(self, name):
         if name in self._modconst:
@@ -536,7 +558,7 @@ class Engine:
             mc = self.module_const(node.id)
             if mc is not None:
                 return mc
-            if self.fn is not None and node.id not in self.known_names():
+            if self.fn is not None and node.id not in self.known_names() and "*" not in self.known_names():
                 raise Raised("NameError")            # bound nowhere: not a local, not a module-level name, not a builtin
             return Opaque("name:" + node.id, ())
         if isinstance(node, ast.JoinedStr):
@@ -730,6 +752,12 @@ class Engine:
     # ------------------------------------------------------------ calls
     def call(self, node, st):
         name = dotted(node.func)
+        root = node.func
+        while isinstance(root, ast.Attribute):
+            root = root.value
+        if isinstance(root, ast.Name) and root.id not in st.env and self.fn is not None and root.id not in self.known_names() \
+                and "*" not in self.known_names():
+            raise Raised("NameError")
         if any(isinstance(a, ast.Starred) for a in node.args) or any(k.arg is None for k in node.keywords):
             args, kw = None, None
         else:
